@@ -20,7 +20,7 @@ RULE = ('case = (profile of hashed area, batch seed); per generated area: one ev
 ASSUMPTIONS = ['vf.ref.sig signer (validated against PGPy, fixtures and gpg in C02)', 'well-formedness of a subpacket body is judged by RFC 4880 5.2.3.x sizes only']
 MIN_COUNTERS = {'quick': {'areas_signed': 1400, 'accepted': 1300, 'hashdata_compared': 1300, 'bitflips': 20000, 'types_covered': 128},
                 'thorough': {'areas_signed': 20000, 'bitflips': 300000}}
-BUDGET = {'quick': (240, 800), 'thorough': (1800, 3600)}
+BUDGET = {'quick': (600, 1500), 'thorough': (1800, 3600)}
 TECHNIQUE = 'runtime monitoring: reference-signed hostile hashed areas + direct comparison of hashed octets at PGPSignature.hashdata + exhaustive bit-flip fault injection'
 
 FIXED = {2: 4, 3: 4, 4: 1, 5: 2, 7: 1, 9: 4, 12: 22, 16: 8, 25: 1}
